@@ -4,6 +4,7 @@ import (
 	"go/ast"
 	"go/token"
 	"go/types"
+	"strings"
 )
 
 func init() { register("C10", rulesC10, nil) }
@@ -350,6 +351,85 @@ func rulesC10(c *Ctx) {
 			return ""
 		})
 		c.Pin("connection state accesses", n, 15)
+	})
+
+	c.Rule("R-C10-7", "the per-request (stateless) and per-session (stateful) HTTP paths configure their transports alike: every handler option that one StreamableServerTransport literal copies is copied by the other (response mode, event store, logger), and a stream is the out-of-band target only if it was opened by subscriptions/listen", func() {
+		tT := c.P.LookupType(pM, "StreamableServerTransport")
+		c.Need(tT != nil, "StreamableServerTransport")
+		type lit struct {
+			f    *Func
+			n    *ast.CompositeLit
+			opts map[string]string // field → handler option it is copied from
+		}
+		var lits []lit
+		for _, f := range c.funcsWithLits(pM) {
+			if f.Root().Recv() == nil || !isNamedType(f.Root().Recv().Type(), modPath+"/"+pM, "StreamableHTTPHandler") {
+				continue
+			}
+			inspectNoLit(f.Body, func(n ast.Node) {
+				cl, ok := n.(*ast.CompositeLit)
+				if !ok || namedOf(f.TypeOf(cl)) != tT {
+					return
+				}
+				l := lit{f, cl, map[string]string{}}
+				for _, e := range cl.Elts {
+					kv, isKV := e.(*ast.KeyValueExpr)
+					if !isKV {
+						continue
+					}
+					if fp := f.FieldPath(kv.Value); strings.HasPrefix(fp, "StreamableHTTPHandler.opts.") {
+						l.opts[exprStr(kv.Key)] = fp
+					}
+				}
+				lits = append(lits, l)
+			})
+		}
+		c.Need(len(lits) == 2, "two StreamableServerTransport literals in the handler")
+		for i, a := range lits {
+			b := lits[1-i]
+			for k, src := range a.opts {
+				c.Check(b.opts[k] == src, "transport-option-copied:"+b.f.Root().Name()+":"+k, b.f, b.n, "%s is set from %s here as it is in %s", k, src, a.f.Root().Name())
+			}
+		}
+		c.Pin("handler options copied into a transport", len(lits[0].opts)+len(lits[1].opts), 6)
+		// isListen
+		isL := c.Field(pM, "stream", "isListen")
+		listen := c.Obj(pM, "methodSubscriptionsListen")
+		n := 0
+		for _, f := range c.funcsWithLits(pM) {
+			for _, w := range Writes(f.Body, false) {
+				if !f.IsField(w.LHS, isL) || w.RHS == nil {
+					continue
+				}
+				n++
+				flag, isVar := f.ObjOf(w.RHS).(*types.Var)
+				ok := isVar && !flag.IsField()
+				if ok {
+					fg := f.Graph()
+					for _, w2 := range f.writesToVar(f.Body, flag, true) {
+						as, isAs := w2.(*ast.AssignStmt)
+						if !isAs || len(as.Rhs) != 1 {
+							ok = false
+							continue
+						}
+						switch exprStr(as.Rhs[0]) {
+						case "false":
+						case "true":
+							if !hasAtom(fg.GuardsAt(fg.VertexOf(w2)), func(a Atom) bool {
+								x, y, op, isCmp := binaryCmp(a.E)
+								return isCmp && op == token.EQL && a.Val && (f.ObjOf(y) == listen || f.ObjOf(x) == listen)
+							}) {
+								ok = false
+							}
+						default:
+							ok = false
+						}
+					}
+				}
+				c.Check(ok, "isListen-source:"+f.Name(), f, w.Stmt, "stream.isListen is a copy of a flag that is set only for the subscriptions/listen method (found %s)", exprStr(w.RHS))
+			}
+		}
+		c.Pin("stream.isListen writers", n, 1)
 	})
 
 	c.Rule("R-C10-6", "messages sent on behalf of a request keep the request's context values (routing id): no peer I/O with a Background/TODO context inside a function that has the caller's context", func() {
